@@ -289,3 +289,44 @@ def send_timeout_table(prog, chk):
             want = "the request left waiting in the queue, nothing written"
         chk.ob("C13.sndtimeout", inst, ok, "expected %s; source: status %s, state %s, error %s, removed %s, send calls %d"
                % (want, q.ret, st, hex(err) if isinstance(err, int) else err, removed, len(sends)), loc=fn.loc(), fn=fn, nontrivial=expired and not writable)
+
+
+def cache_growth_table(prog, chk):
+    """asyncClient_setOption(KSI_ASYNC_OPT_REQUEST_CACHE_SIZE) while requests are outstanding (the documented remedy for 'cache full'):
+    every occupied slot keeps its request at the same index in the enlarged cache - the index is the request id's low part, the reply is
+    matched through it - the old array is released, a smaller size is refused and an allocation failure changes nothing."""
+    from ksirules.interp import TOP, Interp, Ptr, succeed_model
+    from ksirules.model import AnalysisBroken
+    chk.rule("C13.grow", "cache growth keeps every outstanding request in its slot; refused / failed changes leave the cache as it was (decision table)", floor=6)
+    fn = prog.fn("asyncClient_setOption", "net_async.c")
+    cp, op, pp = [p["n"] for p in fn.params]
+    OPT = prog.const("KSI_ASYNC_OPT_REQUEST_CACHE_SIZE")
+    for old, new, alloc_ok in ((3, 4, 1), (2, 2, 1), (2, 5, 1), (4, 6, 1), (3, 2, 1), (3, 3, 1), (3, 4, 0), (1, 3, 1)):
+        # `old` user slots => the option holds old + 1 (slot 0 is reserved); all user slots occupied
+        inputs = {cp: Ptr("C"), op: OPT, pp: new, "C->ctx": Ptr("ctx"), "C->reqCache": Ptr("OLD"), "C->options[%d]" % OPT: old + 1, "OLD[0]": 0}
+        for k in range(1, old + 1):
+            inputs["OLD[%d]" % k] = Ptr("REQ%d" % k)
+        freed = []
+        ov = {"KSI_calloc": lambda I, p, n, a, alloc_ok=alloc_ok: (Ptr("NEW") if alloc_ok else 0), "KSI_malloc": lambda I, p, n, a, alloc_ok=alloc_ok: (Ptr("NEW") if alloc_ok else 0),
+              "KSI_free": lambda I, p, n, a: ((freed.append(a[0]) if a[0] != 0 else None), TOP)[1], "memcpy": lambda I, p, n, a: TOP, "memset": lambda I, p, n, a: a[0]}
+        I = Interp(fn, inputs=inputs, call_model=succeed_model(prog, ov), on_unknown="stop", prog=prog, loop_bound=old + new + 6)
+        paths = I.run()
+        chk.paths += len(paths)
+        inst = "cache size[%d -> %d, all %d slots occupied%s]" % (old, new, old, "" if alloc_ok else ", allocation fails")
+        if len(paths) != 1 or paths[0].undetermined or paths[0].ret is TOP:
+            raise AnalysisBroken("asyncClient_setOption: evaluation not determined for %s: %s" % (inst, [q.undetermined[:1] for q in paths]))
+        q = paths[0]
+        cache = I.read(q, "C->reqCache")
+        size = I.read(q, "C->options[%d]" % OPT)
+        if new > old and alloc_ok:
+            got = [I.read(q, "NEW[%d]" % k) for k in range(1, old + 1)]
+            ok = q.ret == 0 and cache == Ptr("NEW") and size == new + 1 and got == [Ptr("REQ%d" % k) for k in range(1, old + 1)] and freed == [Ptr("OLD")]
+            what = "expected KSI_OK, the %d requests at indexes 1..%d of the new array, the old array released; source: status %s, cache %s, size option %s, new slots %s, released %s" % (
+                old, old, q.ret, cache, size, got, freed)
+        elif new == old:
+            ok = q.ret == 0 and cache == Ptr("OLD") and size == old + 1 and not freed
+            what = "expected KSI_OK and nothing changed; source: status %s, cache %s, size option %s, released %s" % (q.ret, cache, size, freed)
+        else:
+            ok = q.ret != 0 and cache == Ptr("OLD") and size == old + 1 and Ptr("OLD") not in freed
+            what = "expected a refusal and nothing changed; source: status %s, cache %s, size option %s, released %s" % (hex(q.ret) if isinstance(q.ret, int) else q.ret, cache, size, freed)
+        chk.ob("C13.grow", inst, ok, what, loc=fn.loc(), fn=fn, nontrivial=new > old)
